@@ -74,6 +74,11 @@ func buildTagOk(ctx *build.Context, s string) (r bool) {
 		r = true
 	case s == ctx.GOOS:
 		r = true
+	case s != "" && impliedOS[ctx.GOOS] == s:
+		// The OS tag which is also satisfied for this GOOS, as in go/build.
+		r = true
+	case s == "unix" && unixOS[ctx.GOOS]:
+		r = true
 	case s == ctx.GOARCH:
 		r = true
 	case len(s) > 4 && s[:4] == "go1.":
@@ -87,6 +92,29 @@ func buildTagOk(ctx *build.Context, s string) (r bool) {
 		r = !r
 	}
 	return
+}
+
+// impliedOS gives, for a GOOS, the other OS tag which it satisfies, as in go/build.
+var impliedOS = map[string]string{
+	"android": "linux",
+	"illumos": "solaris",
+	"ios":     "darwin",
+}
+
+// unixOS is the set of GOOS values which satisfy the "unix" build tag, as in go/build.
+var unixOS = map[string]bool{
+	"aix":       true,
+	"android":   true,
+	"darwin":    true,
+	"dragonfly": true,
+	"freebsd":   true,
+	"hurd":      true,
+	"illumos":   true,
+	"ios":       true,
+	"linux":     true,
+	"netbsd":    true,
+	"openbsd":   true,
+	"solaris":   true,
 }
 
 // setYaegiTags scans a comment group for "yaegi:tags tag1 tag2 ..." lines
@@ -154,22 +182,22 @@ func skipFile(ctx *build.Context, p string, skipTest bool) bool {
 	last := len(a) - 1
 	if last-1 >= 0 {
 		switch x, y := a[last-1], a[last]; {
-		case x == ctx.GOOS:
+		case x == ctx.GOOS || impliedOS[ctx.GOOS] == x:
 			if knownArch[y] {
 				return y != ctx.GOARCH
 			}
-			return knownOs[y] && y != ctx.GOOS
+			return knownOs[y] && y != ctx.GOOS && impliedOS[ctx.GOOS] != y
 		case knownOs[x] && knownArch[y]:
 			return true
 		case knownArch[y] && y != ctx.GOARCH:
 			return true
-		case knownOs[y] && y != ctx.GOOS:
+		case knownOs[y] && y != ctx.GOOS && impliedOS[ctx.GOOS] != y:
 			return true
 		default:
 			return false
 		}
 	}
-	if x := a[last]; knownOs[x] && x != ctx.GOOS || knownArch[x] && x != ctx.GOARCH {
+	if x := a[last]; knownOs[x] && x != ctx.GOOS && impliedOS[ctx.GOOS] != x || knownArch[x] && x != ctx.GOARCH {
 		return true
 	}
 	return false
